@@ -130,6 +130,12 @@ func New(part string) *R {
 	if d := envInt("VERIF_DEADLINE_S", 0); d > 0 {
 		r.deadline = r.start.Add(time.Duration(d) * time.Second)
 	}
+	// the part's deadline is absolute (shards of one part may run in several waves)
+	if at := envInt("VERIF_DEADLINE_AT", 0); at > 0 {
+		if t := time.Unix(int64(at), 0); r.deadline.IsZero() || t.Before(r.deadline) {
+			r.deadline = t
+		}
+	}
 	r.res.Replayed = r.only != ""
 	return r
 }
